@@ -16,6 +16,7 @@ import Qv.Drv.C18
 import Qv.Drv.C17
 import Qv.Drv.C16
 import Qv.Drv.C19
+import Qv.Drv.C10
 /-! Line protocol: `<op> <json>` per line in, one JSON document per line out. -/
 open Lean
 
@@ -53,7 +54,8 @@ def handlers : List (String × (Json → Except String Json)) := [
   ("C16.search", Qv.Drv.C16.searchJ),
   ("C16.channel", Qv.Drv.C16.channelJ),
   ("C19.labels", Qv.Drv.C19.labelsJ),
-  ("C19.signs", Qv.Drv.C19.signsJ)
+  ("C19.signs", Qv.Drv.C19.signsJ),
+  ("C10.step", Qv.Drv.C10.stepJ)
 ]
 
 def handle (line : String) : String :=
